@@ -185,6 +185,48 @@ pub fn gen(out: &mut dyn Write, family: &str, thorough: bool, seed: u64) {
         writeln!(out, "{}", c.to_line(oracle)).unwrap();
     }
     CUR_ALPHA.with(|a| a.set(ALPHA));
+    // linearly separable tag corpora (C12): the tag of an ambiguous token is decided by the token in front of it, every pattern is
+    // repeated; with and without a tag dictionary that lists the ambiguous token under its first-seen tag, under a later-seen tag,
+    // under a tag the corpus never uses, and tokens the corpus does not contain.  The learned classifiers must reproduce the tags of
+    // the training sentences (oracle `c12sep`): that is what ties a class of the learner to the tag it was trained for.
+    if family == "C12" {
+        let n_sep = if thorough { 60 } else { 10 };
+        for i in 0..n_sep {
+            let (x, z) = (["X", "漢", "xy"][i % 3], ["Z", "の", "zw"][(i / 3) % 3]);
+            let (first, second, third) = (["N", "名詞", "n-1"][i % 3], ["V", "動詞", "v 2"][i % 3], ["A", "形", "a/3"][i % 3]);
+            let three = i % 4 == 3;   // a third reading, after "e"
+            let mut lines: Vec<String> = vec![];
+            for (pre, post) in [("c", "d"), ("d", "c"), ("c", "c"), ("d", "d")] {
+                for amb in [x, z] {
+                    lines.push(format!("{pre}/S a/S {}/{} {post}/S", esc(amb), esc(first)));
+                    lines.push(format!("{pre}/S b/S {}/{} {post}/S", esc(amb), esc(second)));
+                    if three {
+                        lines.push(format!("{pre}/S e/S {}/{} {post}/S", esc(amb), esc(third)));
+                    }
+                }
+                lines.push(format!("{pre}/S a/S Y/{} {post}/S", esc(first)));
+                lines.push(format!("{pre}/S b/S Y/{} {post}/S", esc(first)));
+            }
+            let tagdict: Vec<String> = match i % 5 {
+                0 => vec![],
+                1 => vec![format!("{}/{}", esc(x), esc(second)), format!("W/{}", esc(second))],
+                2 => vec![format!("{}/{}", esc(x), esc(first)), format!("Y/{}", esc(second))],
+                3 => vec![format!("{}/Q", esc(x)), format!("{}/{}", esc(z), esc(second))],
+                _ => vec![format!("{}/{}", esc(z), esc(if three { third } else { second })), format!("{}/{}", esc(x), esc(second))],
+            };
+            let w = 1 + (i % 3) as u8;
+            let c = TrCase {
+                cw: w, cn: w, tw: w, tn: 1 + ((i / 2) % 3) as u8, ml: 2,
+                solver: [1u8, 5, 6, 0][i % 4],
+                dict: if i % 2 == 0 { vec![] } else { vec![x.to_string(), "W".to_string()] },
+                tagdict,
+                corpus: lines.into_iter().map(|l| ('t', l)).collect(),
+                eval: vec![format!("ca{x}d"), format!("db{z}c")],
+                trace: None,
+            };
+            writeln!(out, "{}", c.to_line("c12sep")).unwrap();
+        }
+    }
     // scale: sizes at which narrow integer types inside the trainer would wrap
     let tok_line = |r: &mut Rng, n_chars: usize, alpha: &[char]| -> String {
         let mut s = String::new();
